@@ -34,6 +34,7 @@ pub struct Mon {
     pub counters: BTreeMap<String, u64>,
     pub known: Rc<crate::known::Known>,
     pub analysis: Rc<crate::analysis::Analysis>,
+    pub produced: BTreeMap<String, BTreeSet<String>>, // C14 ground truth: content ids each peer produced itself
 }
 
 pub fn class(code: i64) -> char {
@@ -229,6 +230,7 @@ impl Mon {
             counters: BTreeMap::new(),
             known,
             analysis: Rc::new(crate::analysis::analyse(ast)),
+            produced: BTreeMap::new(),
         }
     }
     pub fn on(&self, p: &str) -> bool {
@@ -252,6 +254,10 @@ impl Mon {
                 (w.events.last().map(|e| e.0).unwrap_or(0), t)
             }
         };
+        // details may quote strings taken from corrupted data; keep the harness's own strings valid UTF-8
+        let detail = String::from_utf8_lossy(detail.as_bytes()).into_owned();
+        let tag = String::from_utf8_lossy(tag.as_bytes()).into_owned();
+        let tag = tag.as_str();
         let known = self.known.classify(prop, tag, &taint, &detail);
         let v = Violation { prop: prop.into(), tag: tag.into(), detail, eid, known: known.clone() };
         if known.is_some() {
@@ -338,7 +344,14 @@ impl Mon {
             return;
         }
         self.c02(w, idx);
+        if self.on("C14") {
+            crate::monitors2::c14(self, w, idx);
+        }
+        if self.on("C15") {
+            crate::monitors2::c15(self, w, idx);
+        }
         if self.on("C01") {
+            crate::monitors2::c01_entry_points(self, w, idx);
             self.c01(w, idx);
         }
         if honest && self.on("C04") {
